@@ -1,7 +1,7 @@
 """C16 - parallel STL (narrow, structural clauses)."""
 import re
 
-from gsa.cfg import Fn, S, SN, is_call, walk, lit, stores
+from gsa.cfg import Fn, S, SN, is_call, walk, lit, stores, cmp_pred
 from gsa import lock as L
 from gsa import race
 from . import wl_locks
@@ -256,8 +256,8 @@ def sorting(ctx, fx):
         pa = sorted(S(e["a"][0]) for _, e in pu)
         if pa != ["make_pair(bounds.first,pivot)", "make_pair(pivot,bounds.second)"]:
             det.append("pushes %s" % pa)
-        ne1 = lambda t: S(t) == "(bounds.first != pivot)"
-        ne2 = lambda t: S(t) == "(bounds.second != pivot)"
+        ne1 = cmp_pred("bounds.first", "!=", "pivot")        # any spelling: a != b, b != a, !(a == b)
+        ne2 = cmp_pred("bounds.second", "!=", "pivot")
         for p, e in pu:
             g = ne1 if "bounds.first,pivot" in S(e["a"][0]) else ne2
             if fn.guarded_positions(lambda x, e=e: x is e, g, True):
